@@ -548,7 +548,16 @@ class HistoryGen(object):
                 e['user_id'] = r.choice(self.n.users)
             if vnum(v) >= 34 and ad and r.random() < 0.2:
                 e['mappings'] = {'': sorted(ad)}
+            if ad and self.bad(0.03):
+                # a provider key that is a uuid followed by a newline
+                k0 = sorted(ad)[0]
+                e['allocations'] = dict(ad)
+                e['allocations'][k0 + '\n'] = e['allocations'].pop(k0)
             body[c] = e
+        if body and self.bad(0.03):
+            # a consumer key that is a uuid followed by a newline
+            k0 = sorted(body)[0]
+            body[k0 + '\n'] = body.pop(k0)
         return Req('POST', '/allocations', v, body,
                    tag={'mode': 'joint' if joint else 'multi',
                         'consumers': cs})
